@@ -80,7 +80,10 @@ StepReset(e) ==
 
 RECURSIVE PermSeqs(_)
 PermSeqs(S) == IF S = {} THEN {<< >>} ELSE UNION {{<<a>> \o p : p \in PermSeqs(S \ {a})} : a \in S}
-Scheds == PermSeqs(Range(cl.wits) \cup (DOMAIN sc.prov \ {cl.primary}))
+Orders == PermSeqs(Range(cl.wits) \cup (DOMAIN sc.prov \ {cl.primary}))
+\* one order for all fan-outs of the call; if that does not explain the call, one per fan-out
+Scheds1 == {<<p>> : p \in Orders}
+Scheds2 == {<<p, q>> : p \in Orders, q \in Orders} \cup {<<p, q, r>> : p \in Orders, q \in Orders, r \in Orders}
 
 Known(ids) == {b \in ids : b \in DOMAIN sc.blocks}
 HidsOf(ids) == {sc.blocks[b].hid : b \in Known(ids)}
@@ -92,9 +95,13 @@ Returned(obs) == SelectSeq(obs, LAMBDA o : o.r \notin {"Pending", "Canceled"})
 Wild(r) == r \in {"Pending", "Canceled"}
 PerProv(s, p) == SelectSeq(s, LAMBDA o : o.p = p)
 \* predicted request sequence a against observed b of one provider
+\* (a goroutine that was cut off -- cancelled context, or still sleeping in the lagging-witness
+\* branch when the call returned -- shows fewer requests than the specification predicts)
 SeqAgree(a, b) ==
   /\ \A i \in 1..Min2(Len(a), Len(b)) : a[i].h = b[i].h /\ (Wild(b[i].r) \/ a[i].r = b[i].r)
-  /\ (Len(a) = Len(b) \/ \E i \in DOMAIN b : Wild(b[i].r))
+  /\ \/ Len(a) = Len(b)
+     \/ /\ Len(b) < Len(a) /\ Len(b) > 0
+        /\ (Wild(b[Len(b)].r) \/ a[Len(b) + 1].h = 0)
 ReqAgree(pred, obs) == \A p \in DOMAIN sc.prov : SeqAgree(PerProv(pred, p), PerProv(obs, p))
 PriOnly(s) == SelectSeq(s, LAMBDA o : o.ph = "pri")
 EvSet(ev) == {[to |-> ev[i].to, conf |-> ev[i].conf, common |-> ev[i].common] : i \in DOMAIN ev}
@@ -121,10 +128,10 @@ Install(e) ==
 
 StepNewClient(e) ==
   LET pred(s) == InitClient(sc, cl.primary, cl.wits, cnt, root.h, root.hid, s)
-      ok == \E s \in Scheds : Matches(pred(s), e)
+      ok == (\E s \in Scheds1 : Matches(pred(s), e)) \/ (\E s \in Scheds2 : Matches(pred(s), e))
       ids == Range(e.post.store) IN
   /\ drift' = drift \cup FailIf(~ok, Drift("NewClient: no reply schedule of the specification reproduces the observed call",
-                                           pred(e.sched).res))
+                                           pred(<<e.sched>>).res))
   /\ viol' = viol
        \cup FailIf(\E b \in ids : b \notin DOMAIN sc.blocks, Viol("TrustRootOnly", "unknown_block_stored"))
        \cup FailIf(\E b \in Known(ids) : sc.blocks[b].hid # root.hid, Viol("TrustRootOnly", "other_header_stored"))
@@ -140,7 +147,7 @@ StoredHow(pre, hd) ==
 StepVerify(e) ==
   LET pred(s) == IF e.ev = "Update" THEN UpdateCall(sc, cl, cnt, e.now, s)
                  ELSE VerifyAtHeight(sc, cl, cnt, e.h, e.now, s)
-      ok   == \E s \in Scheds : Matches(pred(s), e)
+      ok   == (\E s \in Scheds1 : Matches(pred(s), e)) \/ (\E s \in Scheds2 : Matches(pred(s), e))
       pre  == HidsOf(cl.store)
       ids  == Range(e.post.store)
       post == HidsOf(ids)
@@ -148,12 +155,18 @@ StepVerify(e) ==
       uns  == Unsound(sc, pre, post, obs, e.now)
       unc  == Unconfirmed(sc, pre, post, obs, e.post.primary)
       sil  == SilentKinds(sc, obs, e.post.primary)
-      \* the specification's runs whose primary phase is the observed one
-      P    == {s \in Scheds : ReqAgree(PriOnly(pred(s).x.reqs), PriOnly(e.obs))}
-      att  == UNION {pred(s).x.att : s \in P}
+      \* the specification's runs whose primary phase is the observed one: same requests and
+      \* answers before the cross-check, same primary at the end, cross-check reached or not
+      hasDet == \E i \in DOMAIN e.obs : e.obs[i].ph = "det"
+      Same(s) == /\ ReqAgree(PriOnly(pred(s).x.reqs), PriOnly(e.obs))
+                 /\ pred(s).x.cl.primary = e.post.primary
+                 /\ (pred(s).x.tr # << >>) = hasDet
+      P1   == {s \in Scheds1 : Same(s)}
+      P    == IF P1 # {} THEN P1 ELSE {s \in Scheds2 : Same(s)}
+      att  == IF hasDet THEN UNION {pred(s).x.att : s \in P} ELSE {}
       tos  == {e.evid[i].to : i \in DOMAIN e.evid} IN
   /\ drift' = drift \cup FailIf(~ok, Drift(e.ev \o ": no reply schedule of the specification reproduces the observed call",
-                                           pred(e.sched).res))
+                                           pred(<<e.sched>>).res))
   /\ viol' = viol
        \cup FailIf(\E b \in ids : b \notin DOMAIN sc.blocks, Viol("StoreSound", "unknown_block_stored"))
        \cup FailIf(uns # {}, Viol("StoreSound", IF uns = {} THEN "-" ELSE StoredHow(pre, CHOOSE hd \in uns : TRUE)))
